@@ -250,9 +250,42 @@ def producedOf : Tm → Tm
 
 def produced (p : Tm) : List Tm := (schema p).map producedOf
 
+def isColOrRef : Tm → Bool
+  | .col _ _ => true
+  | .node .ref _ => true
+  | _ => false
+
+mutual
+  /-- The (sub)expressions of a term, not looking through `ref`s (`apply_proj`, since `fix:`
+  5c889c5: the e-classes reachable from `[?vars]`). -/
+  def directSubs : Tm → List Tm
+    | .col t c => [.col t c]
+    | .leaf l => [.leaf l]
+    | .node .ref xs => [.node .ref xs]
+    | .node h xs => .node h xs :: directSubsList xs
+  def directSubsList : List Tm → List Tm
+    | [] => []
+    | x :: xs => directSubs x ++ directSubsList xs
+end
+
+/-- The projection list `apply_proj` builds over a child for the parent's expressions `roots`:
+for every entry of the child's schema, its produced column if the parents' column set names it,
+and — since `fix:` 5c889c5 — the entry itself if it is a computed expression that occurs in the
+parents' expressions.  (Before the fix only the first part.) -/
+def keptColumns (roots : List Tm) (c : Tm) : List Tm :=
+  let used := usedColsList roots
+  let direct := directSubsList roots
+  (schema c).flatMap fun e =>
+    (if used.contains (producedOf e) then [producedOf e] else []) ++
+    (if !isColOrRef e && direct.contains e then [e] else [])
+
 /-- `apply_proj("(proj [?exprs] (order [?keys] ?child))")`: the child is wrapped in a projection
-on the produced columns that `?exprs` or `?keys` use. -/
+on the columns of its schema that `?exprs` or `?keys` use. -/
 def applyProjOrder (es ks c : Tm) : Tm :=
+  .node .proj [es, .node .order [ks, .node .proj [.node .list (keptColumns [es, ks] c), c]]]
+
+/-- The applier as it was before `fix:` 5c889c5 (kept for the regression theorem). -/
+def applyProjOrderOld (es ks c : Tm) : Tm :=
   let used := usedCols es ++ usedCols ks
   let kept := (produced c).filter fun col => used.contains col
   .node .proj [es, .node .order [ks, .node .proj [.node .list kept, c]]]
